@@ -136,11 +136,12 @@ class RFBServer(Protocol):  # type: ignore[misc]
         (ptype,) = unpack_from("!B", self.buffer)
         nbytes = TYPE_LEN.get(ptype, 0)
         if len(self.buffer) < nbytes:
-            self._handler = self._handle_protocol, nbytes + 1
+            self._handler = self._handle_protocol, nbytes
             return
 
         block = bytes(self.buffer[1:nbytes])
         del self.buffer[:nbytes]
+        self._handler = self._handle_protocol, 1
         if ptype == MsgC2S.SET_PIXEL_FORMAT:
             (args,) = unpack("!xxx16s", block)
             pixel_fomat = PixelFormat.from_bytes(args)
